@@ -177,6 +177,8 @@ impl DmlExecutor {
         };
         let row_id = UInt64::from(row_id_lease.id());
         relation.increment_row_id();
+        #[cfg(feature = "verif")]
+        crate::verif::sched::yield_point("row_id_leased");
 
         let schema = relation.schema().clone();
         let root = relation.root();
